@@ -62,8 +62,18 @@ def mid_surrogate(line, col):
     return 0xDC00 <= unit <= 0xDFFF
 
 
-def script_case(idx, c, ws, origin, warm=False, retype=False):
+def script_case(idx, c, ws, origin, warm=False, retype=False, stale=False):
     files = wcommon.files_of(c)
+    disk = files
+    if stale:
+        # every file ON DISK carries one more transaction than the editor holds (an edit undone but not saved): all files are
+        # open, so every figure must come from the editors' texts
+        disk = {}
+        for g in c["files"]:
+            accts = sorted(o["name"] for o in g["occ"] if o["k"] == "account")
+            t = files[g["name"]]
+            extra = ("\n2031-01-01 stale on disk\n    %s  777\n    equity:stale on disk\n" % accts[0]) if accts else "\n; stale on disk\n"
+            disk[g["name"]] = t + ("" if t.endswith("\n") else "\n") + extra
     f = c["files"][origin]
     positions = []
     meta = []
@@ -73,6 +83,10 @@ def script_case(idx, c, ws, origin, warm=False, retype=False):
         positions.append([li, col])
         meta.append((li, col, k, info))
     ops = []
+    if stale:
+        for g in c["files"]:
+            if g["name"] != f["name"]:
+                ops.append({"op": "open", "file": g["name"], "text": files[g["name"]]})
     if warm:
         # the same state reached along a longer history: the other files of the tree were opened (and closed) first, so they are
         # in the loader's cache when the hovered document's tree is resolved, and the hovered document was changed and changed back
@@ -102,7 +116,7 @@ def script_case(idx, c, ws, origin, warm=False, retype=False):
         ops.append({"op": "change", "file": f["name"], "text": files[f["name"]] + "\n; typed\n"})
         ops.append({"op": "change", "file": f["name"], "text": files[f["name"]]})
     ops.append({"op": "sweep", "file": f["name"], "kinds": ["hover"], "positions": positions})
-    return {"id": str(idx), "files": files, "workspace": ws, "ops": ops}, meta
+    return {"id": str(idx), "files": disk, "workspace": ws, "ops": ops}, meta
 
 
 NUM = r"-?[0-9]+(?:\.[0-9]+)?(?:[eE][-+]?[0-9]+)?"
@@ -239,12 +253,13 @@ def run_cases(run, cases, table=None):
                     if c.get("_warm") is not None and warm != c["_warm"]:
                         continue
                     retype = c.get("_retype", ci % 4 == 0)
-                    hc, meta = script_case(len(hcases), c, ws, origin, warm, retype)
+                    stale = c.get("_stale", (not warm) and (ci + origin) % 3 == 1)
+                    hc, meta = script_case(len(hcases), c, ws, origin, warm, retype, stale)
                     hcases.append(hc)
-                    metas.append((ci, ws, origin, meta, warm, retype))
+                    metas.append((ci, ws, origin, meta, warm, (retype, stale)))
     results = run.harness("script", hcases, timeout=3000)
     nprobes = 0
-    for hc, (ci, ws, origin, meta, warm, retype), res in zip(hcases, metas, results):
+    for hc, (ci, ws, origin, meta, warm, (retype, stale)), res in zip(hcases, metas, results):
         c = cases[ci]
         f = c["files"][origin]
         scope_root = wcommon.scope_root(c, ws, origin)
@@ -276,7 +291,7 @@ def run_cases(run, cases, table=None):
                 seen.add(sig)
                 run.diverge(("after-history:" if warm else "") + sig, "%s  [file %s line %d col %d: %r; workspace root %s%s]" % (
                                 what, f["name"], li + 1, col, f["lines"][li], ws, "; the other files were opened and closed first, the document changed and changed back" if warm else ""),
-                            {"spec_case": c, "ws": ws, "origin": origin, "warm": warm, "retype": retype, "probe": [li, col, k, info]}, it["r"])
+                            {"spec_case": c, "ws": ws, "origin": origin, "warm": warm, "retype": retype, "stale": stale, "probe": [li, col, k, info]}, it["r"])
     return nprobes
 
 
@@ -286,7 +301,7 @@ def main(args):
     if args.replay:
         with open(args.replay) as f:
             rp = json.load(f)
-        cases = [dict(rp["case"]["spec_case"], _warm=bool(rp["case"].get("warm")), _retype=bool(rp["case"].get("retype")))]
+        cases = [dict(rp["case"]["spec_case"], _warm=bool(rp["case"].get("warm")), _retype=bool(rp["case"].get("retype")), _stale=bool(rp["case"].get("stale")))]
     else:
         thorough = run.tier == "thorough"
         cases = wcommon.gen(run, 60 if not thorough else 1200, maxtx=3)
@@ -317,7 +332,7 @@ def confirm(run, d):
     cs = d["case"]
     c = cs["spec_case"]
     warm = bool(cs.get("warm"))
-    hc, meta = script_case(0, c, cs["ws"], cs["origin"], warm, bool(cs.get("retype")))
+    hc, meta = script_case(0, c, cs["ws"], cs["origin"], warm, bool(cs.get("retype")), bool(cs.get("stale")))
     res = run.harness("script", [hc])[0]
     tabs = wcommon.tables_index(c["tables"][wcommon.scope_root(c, cs["ws"], cs["origin"])])
     if "panic" in res:
